@@ -174,16 +174,20 @@ func evalPathsRecvStruct(fn *ssa.Function, sc *Scenario, name string) ([]Path, e
 }
 
 func c17Handle(c *Ctx, r *Report, rule string) {
-	r.rule(rule, "throttle Handle over (per-connection limit configured or not) x (latency 0 / >0, timer or cancellation): cx.Conn becomes a throttledConn whose Conn is the previous cx.Conn, whose totalLimiter is the handler's and whose localLimiter is a fresh limiter iff a per-connection limit is configured; next.Handle(cx) follows; with latency it is reached only through the timer, cancellation returns without next", 4)
+	r.rule(rule, "throttle Handle over (per-connection limit configured or not) x (latency 0 / >0, timer or cancellation): cx.Conn becomes a throttledConn whose Conn is the previous cx.Conn, whose totalLimiter is the handler's and whose localLimiter is a fresh limiter iff a per-connection limit is configured; next.Handle(cx) follows; with latency - also when no limit at all is configured - it is reached only through the timer, cancellation returns without next", 8)
 	fnName := "modules/l4throttle.(*Handler).Handle"
 	fn := c.Fn(fnName)
 	if fn == nil {
 		r.bad(rule, fnName, "exists", "-", "function not found")
 		return
 	}
-	for _, local := range []bool{false, true} {
+	for _, combo := range [][2]bool{{false, true}, {true, true}, {false, false}, {true, false}} {
+		local, total := combo[0], combo[1]
 		for _, lat := range []int64{0, 5} {
 			name := fmt.Sprintf("localLimit=%v,latency=%d", local, lat)
+			if !total {
+				name += ",no-total-limit"
+			}
 			rate, burst := int64(0), int64(0)
 			if local {
 				burst = 10
@@ -201,6 +205,11 @@ func c17Handle(c *Ctx, r *Report, rule string) {
 					return symRef("timer", false), true
 				}
 				return SV{}, false
+			}
+			wantTotal := "h.totalLimiter"
+			if !total {
+				sc.Heap["h.totalLimiter"] = symNil()
+				wantTotal = "nil"
 			}
 			paths, err := evalPaths(fn, sc)
 			if err != nil || len(paths) == 0 {
@@ -238,23 +247,27 @@ func c17Handle(c *Ctx, r *Report, rule string) {
 						cancelled = true
 					}
 				}
-				if installed == "" {
+				if installed == "" && (local || total) {
 					problems = append(problems, "no throttled connection is installed: "+tr)
 					continue
 				}
-				get := func(f string) SV { return p.Heap[installed+"."+f] }
-				if get("Conn").Desc != "rawconn" {
-					problems = append(problems, "the throttled connection does not wrap the previous cx.Conn (wraps "+get("Conn").Desc+"): the stream is cut or bypasses the limiter")
-				}
-				if get("totalLimiter").Desc != "h.totalLimiter" {
-					problems = append(problems, "the handler-wide limiter is not attached to this connection (totalLimiter="+get("totalLimiter").Desc+"): the total limit no longer holds summed over all connections")
-				}
-				ll := get("localLimiter")
-				if local && ll.Desc != "newLimiter" {
-					problems = append(problems, "a per-connection limit is configured but the connection gets localLimiter="+ll.Desc)
-				}
-				if !local && !(ll.Known && ll.Nil) {
-					problems = append(problems, "no per-connection limit is configured but the connection gets localLimiter="+ll.Desc)
+				if installed != "" {
+					get := func(f string) SV { return p.Heap[installed+"."+f] }
+					if get("Conn").Desc != "rawconn" {
+						problems = append(problems, "the throttled connection does not wrap the previous cx.Conn (wraps "+get("Conn").Desc+"): the stream is cut or bypasses the limiter")
+					}
+					if get("totalLimiter").Desc != wantTotal {
+						problems = append(problems, "the handler-wide limiter is not attached to this connection (totalLimiter="+get("totalLimiter").Desc+"): the total limit no longer holds summed over all connections")
+					}
+					ll := get("localLimiter")
+					if local && ll.Desc != "newLimiter" {
+						problems = append(problems, "a per-connection limit is configured but the connection gets localLimiter="+ll.Desc)
+					}
+					if !local && !(ll.Known && ll.Nil) {
+						problems = append(problems, "no per-connection limit is configured but the connection gets localLimiter="+ll.Desc)
+					}
+				} else {
+					installedBeforeNext = true // nothing to meter: passing the connection on unchanged is the same behaviour
 				}
 				switch {
 				case lat == 0:
